@@ -8,10 +8,8 @@ void abort(void) { __CPROVER_assert(0, "abort reached (VERIFY_CHECK / default ca
 static int g_illegal, g_error;
 static void cb_illegal(const char *s, void *d) { (void)s; (void)d; g_illegal++; }
 static void cb_error(const char *s, void *d) { (void)s; (void)d; g_error++; }
-#ifndef VERIF_NATIVE
 size_t nondet_size(void); _Bool nondet_bool(void); int nondet_int(void); unsigned char nondet_uchar(void);
 uint64_t nondet_u64(void); uint32_t nondet_u32(void);
-#endif
 /* a context object whose callbacks count instead of aborting; declassify off; not the static context */
 static void verif_ctx_init(secp256k1_context *ctx) {
     ctx->illegal_callback.fn = cb_illegal; ctx->illegal_callback.data = NULL;
